@@ -17,6 +17,8 @@ see the `_refuted` theorems at the end.
 import HvGht.Lemmas.Compare
 import HvGht.Lemmas.Cmp
 import HvGht.Lemmas.Colt
+import HvGht.Lemmas.ColtCursor
+import HvGht.Lemmas.More
 
 set_option linter.unusedSimpArgs false
 set_option linter.unusedVariables false
@@ -92,6 +94,11 @@ theorem merge_preserves_wf (sk : Kind) (n d : Nat) (a b : Ght n) (ha : Wf sk n d
     Wf sk n d (gmerge sk n a b).1 :=
   aux_wf_merge sk n d a b ha hb
 
+/-- the `changed` flag of `merge` is exact under the invariant: `true` iff `b` brings a new row -/
+theorem merge_changed_iff (n d : Nat) (a b : Ght n) (ga : Good n d a) (gb : Good n d b) :
+    (gmerge .set n a b).2 = true ↔ ∃ x ∈ grows n b, x ∉ grows n a :=
+  aux_merge_changed_iff n d a b ga gb
+
 /-! ## comparison -/
 
 /-- the invariant needed for comparison is established by `default()`/`new_from` and kept by
@@ -148,6 +155,13 @@ theorem deep_join_is_relational_join (sk ska skb : Kind) (n : Nat) (a b : Ght n)
     exact ⟨ra, hra, rb, hrb, fun i _ hi =>
       (aux_take_eq_iff n ra rb (la ra hra) (lb rb hrb)).mp hc i (by omega), e⟩
 
+/-- the output of the deep join is a well-formed trie (so `contains`, `prefix_iter`, `get` … of
+this file apply to it), although it may carry empty children (F7). -/
+theorem deep_join_wf (k n d : Nat) (a b : Ght n) (ha : Wf .set n d a) (hb : Wf .set n d b)
+    (la : ∀ r ∈ grows n a, d + n ≤ r.length) :
+    Wf .set n d (deepJoin .set k n a b) :=
+  aux_wf_deepJoin k n d a b ha hb la
+
 /-- `GhtCartesianProductBimorphism` at the roots: all concatenations, collected into a
 well-formed trie of the requested height. -/
 theorem cartesian_product_rows (sk : Kind) (no na nb : Nat) (a : Ght na) (b : Ght nb) (x : Row) :
@@ -194,6 +208,26 @@ theorem colt_gets_preserve_rows (F : Forest) (path : List Key) (hlen : path.leng
     (coltGets F path).rows.Perm F.rows := by
   unfold coltGets
   exact aux_coltGets_fold path F [] (aux_reach_root F) (by simpa using hlen)
+
+/-- The cursor: after any chain of gets along `path` on a well-formed forest (e.g. built by
+inserts and earlier gets), the nodes the cursor points to hold exactly the rows of the
+*original* forest that carry `path` in their first columns (as a multiset), and the forest stays
+well formed. -/
+theorem colt_cursor_rows (F : Forest) (path : List Key) (hw : ForestWf F) (hlen : path.length ≤ F.m) :
+    ForestWf (coltGets F path) ∧
+    (cursorRows (coltGets F path) path).Perm (F.rows.filter (pref 0 path)) := by
+  have inv := aux_coltGets_inv path F [] hw (fun i hi => by simp at hi)
+  simp only [List.nil_append] at inv
+  refine ⟨inv.1, ?_⟩
+  unfold coltGets
+  rw [aux_cursorRows_eq _ path inv.1 inv.2]
+  exact (colt_gets_preserve_rows F path hlen).filter _
+
+/-- forests built by inserts are well formed -/
+theorem colt_forest_wf_insert (F : Forest) (row : Row) (h : ForestWf F) : ForestWf (F.insert row) :=
+  aux_forestWf_insert F row h
+
+theorem colt_forest_wf_empty (m : Nat) : ForestWf (Forest.empty m) := aux_forestWf_empty m
 
 /-! ## what the code does *not* satisfy (witnesses replayed on the real code by the check) -/
 
@@ -243,6 +277,8 @@ example : grows 2 (deepJoin .set 2 2 (gnewFrom .set 2 0 [[1, 1, 7], [2, 2, 9]]) 
     = [[1, 1, 7, 8]] := by decide
 example : (coltGets ((((Forest.empty 3).insert [1, 1, 1]).insert [2, 2, 2]).insert [1, 1, 5]) [1, 1]).rows
     = [[2, 2, 2], [1, 1, 1], [1, 1, 5]] := by decide
+example : cursorRows (coltGets ((((Forest.empty 3).insert [1, 1, 1]).insert [2, 2, 2]).insert [1, 1, 5]) [1, 1]) [1, 1]
+    = [[1, 1, 1], [1, 1, 5]] := by decide
 example : gprefixIter 2 0 (gnewFrom .set 2 0 [[1, 1, 7], [1, 2, 8], [2, 1, 7]]) [1] = [[1, 1, 7], [1, 2, 8]] := by decide
 
 end HvGht
